@@ -21,12 +21,21 @@ def sh(cmd, cwd, env, timeout):
         return 124, "", "timeout"
 
 
+BASE_FILES: dict = {}      # repo-relative path -> text of the base the mutants are made from, where it differs from /repo
+
+
 def make_copy(k):
     d = os.path.join(WORK, f"w{k}")
     shutil.rmtree(d, ignore_errors=True)
     os.makedirs(d)
     subprocess.run(f"git -C /repo archive HEAD | tar -x -C {d}", shell=True, check=True)
+    for rel, text in BASE_FILES.items():
+        open(os.path.join(d, rel), "w").write(text)
     return d
+
+
+def base_text(rel):
+    return BASE_FILES[rel] if rel in BASE_FILES else open(os.path.join("/repo", rel)).read()
 
 
 def static_verdict(rel, text):
@@ -34,7 +43,7 @@ def static_verdict(rel, text):
     from tsa.check import Ctx, run_rules
     from tsa.rules import REGISTRY
     from tsa.props import PROPERTIES as PROPS
-    ctx = Ctx(Repo("/repo", {rel: text}))
+    ctx = Ctx(Repo("/repo", {**BASE_FILES, rel: text}))
     res = run_rules(ctx, sorted(REGISTRY))
     fired = sorted({r.rule for r in res if r.findings})
     errs = sorted({r.rule for r in res if r.error})
@@ -53,7 +62,7 @@ def work(args):
     m, k, skip_tests, clean = args
     d = os.path.join(WORK, f"w{k}")
     path = os.path.join(d, m["file"])
-    orig = open(os.path.join("/repo", m["file"])).read()
+    orig = base_text(m["file"])
     mutated = apply(orig, m)
     out = dict(m)
     env = dict(os.environ, PYTHONPATH=d, **ENVK)
@@ -116,11 +125,19 @@ def main():
         done = {json.loads(l)["id"] for l in open(outp)}
     todo = [m for m in mutants if m["id"] not in done and (only is None or m["id"] in only)]
     n = int(a[a.index("--jobs") + 1]) if "--jobs" in a else 16
-    env = dict(os.environ, PYTHONPATH="/repo", **ENVK)
-    rc, so, se = sh(["/venv/bin/python", "/verif/tools/mut_oracle.py", "/repo"], "/repo", env, 600)
-    clean = json.loads(so)
+    if "--base" in a:
+        # the mutants were made from a refactored tree: a fixture directory of /verif/refactors (files/<rel>)
+        fx = a[a.index("--base") + 1]
+        for dirpath, _dn, fns in os.walk(os.path.join(fx, "files")):
+            for fn_ in fns:
+                full = os.path.join(dirpath, fn_)
+                BASE_FILES[os.path.relpath(full, os.path.join(fx, "files"))] = open(full).read()
     for k in range(n):
         make_copy(k)
+    d0 = os.path.join(WORK, "w0")
+    env = dict(os.environ, PYTHONPATH=d0, **ENVK)
+    rc, so, se = sh(["/venv/bin/python", "/verif/tools/mut_oracle.py", d0], d0, env, 600)
+    clean = json.loads(so)
     q_in, q_out = mp.Queue(), mp.Queue()
     procs = [mp.Process(target=worker, args=(q_in, q_out, k, skip_tests, clean)) for k in range(n)]
     for p in procs:
